@@ -167,7 +167,7 @@ def _init_unproved():
 
 _init_unproved()
 NAME_MODES = ['str', 'int0', 'empty0', 'person', 'tuple']
-REQUIRED_COUNTERS = (['score_fraction_counts', 'score_large_factor', 'scale', 'near_tie', 'equal_rational', 'beyond_2^53', 'modelled', 'qd_options', 'qd_policy_subtract', 'qd_prev_gains', 'qd_caps',
+REQUIRED_COUNTERS = (['score_fraction_counts', 'score_large_factor', 'scale', 'near_tie', 'equal_rational', 'beyond_2^53', 'modelled', 'qd_options', 'qd_policy_subtract', 'qd_prev_gains', 'qd_caps', 'ha_options', 'ha_prev_gains', 'ha_caps', 'ha_prev_at_least_votes',
                       'lr_equal_remainders', 'pure_total_below_one', 'approval_later_seat_level', 'threshold_boundary', 'coef_tie', 'coef_as_decimal', 'coef_as_float', 'exact_half_or_quota', 'odd_total_half', 'even_factor']
                      + ['m:' + f for f in PROVED_FAMILIES])      # every proved family is also run through its Lean model
 RULE = ('every scale-free evaluator family of the quantifier (plurality, divisor methods, largest remainder with exact quotas, '
@@ -292,6 +292,36 @@ def generate(rng, tier):
                 k = [2, 3, 7, 100, 10 ** 6, 10 ** 25 + 7][t % 6]
                 yield {'op': 'scale', 'family': f.name, 'prof': [[i, num_str(v)] for i, v in enumerate(vals)], 'n': n, 'k': str(k),
                        '_tags': ['scale', tag] + (['beyond_2^53'] if k > 2 ** 53 else [])}
+    # highest averages with every argument of evaluate(): previous gains (also at least as large as the party's vote count: tiny
+    # electorates, sub-unit rational counts, zero-vote parties) and caps, every divisor and modified first coefficients - the theorem
+    # highestAverages_scale holds for every configuration, only the votes are scaled
+    for t in range(80 if tier == 'quick' else 2500):
+        m = rng.randint(2, 5)
+        div = rng.choice(['d_hondt', 'sainte_lague', 'imperiali', 'danish', 'macau'])
+        first = rng.choice([None, None, None, '7/5', '1/2', '1'])
+        if t % 3 == 0:
+            vals = [Fraction(rng.randint(0, 9), rng.choice([1, 2, 3, 7, 10])) for _ in range(m)]
+        else:
+            vals = [rng.choice([0, 0, 1, 1, 2, 3, 5]) if rng.random() < 0.6 else rng.randint(1, 40) for _ in range(m)]
+        if sum(vals) == 0:
+            vals[0] = 2
+        n = rng.randint(1, 12)
+        prev, left = [], n
+        if rng.random() < 0.7:
+            for i in rng.sample(range(m), rng.randint(1, m)):
+                g = rng.randint(0, min(4, left))
+                if g:
+                    prev.append([i, g]); left -= g
+        caps = []
+        if rng.random() < 0.3:
+            pd = dict(prev)
+            caps = [[i, pd.get(i, 0) + rng.randint(0, 3)] for i in rng.sample(range(m), rng.randint(1, m - 1))]
+        k = (MULTIPLIERS + [100])[t % (len(MULTIPLIERS) + 1)]
+        big_prev = any(g >= Fraction(vals[i]) for i, g in prev)
+        yield {'op': 'scale_ha', 'divisor': div, 'first_coef': first, 'prof': [[i, num_str(v)] for i, v in enumerate(vals)], 'n': n,
+               'prev': prev, 'max': caps, 'k': str(k),
+               '_tags': ['scale', 'ha_options'] + (['ha_prev_gains'] if prev else []) + (['ha_caps'] if caps else []) +
+                        (['ha_prev_at_least_votes'] if big_prev else []) + (['beyond_2^53'] if k > 2 ** 53 else [])}
     # the quota distributor / largest remainder with EVERY option of the constructor and of evaluate(): exact quota x over-award
     # policy x accept_equal x previous gains x caps, on small electorates where surpluses and remainders are close (previous gains and
     # caps are seat counts: only the votes are scaled) - theorems quotaDistributor_scale / largestRemainder_scale hold for every cfg
@@ -397,6 +427,24 @@ def impl(case):
         base = fam_mod.run_family(f, case['prof'], case['n'], NAMES)
         scaled = fam_mod.run_family(f, fam_mod.scale(case['prof'], Fraction(case['k'])), case['n'], NAMES)
         return {'base': base, 'scaled': scaled}
+    if case['op'] == 'scale_ha':
+        import votelib.evaluate.proportional as vp
+        import votelib.component.divisor as vd
+        prev = {NAMES.n(i): g for i, g in case['prev']}
+        caps = {NAMES.n(i): g for i, g in case['max']}
+
+        def run(prof):
+            d = vd.construct(case['divisor'])
+            if case['first_coef'] is not None:
+                d = vd.modified_first_coef(d, Fraction(case['first_coef']))
+            ev = vp.HighestAverages(d)
+            kw = {}
+            if prev:
+                kw['prev_gains'] = dict(prev)
+            if caps:
+                kw['max_seats'] = dict(caps)
+            return guarded(lambda: enc_distribution(ev.evaluate(fam_mod.build('simple', prof, NAMES), case['n'], **kw), NAMES))
+        return {'base': run(case['prof']), 'scaled': run(fam_mod.scale(case['prof'], Fraction(case['k'])))}
     if case['op'] == 'scale_qd':
         import votelib.evaluate.proportional as vp
         cls = vp.LargestRemainder if case['kind'] == 'lr' else vp.QuotaDistributor
@@ -458,6 +506,11 @@ def oracle(case, obs):
         b, s = canon(obs['base']), canon(obs['scaled'])
         if f.scale_free and b != s:
             out.append(('outcome_changed_by_scaling', f'{f.name} k={case["k"]}: {json.dumps(b)} vs {json.dumps(s)}'))
+    elif case['op'] == 'scale_ha':
+        b, sc = canon(obs['base']), canon(obs['scaled'])
+        if b != sc:
+            out.append(('outcome_changed_by_scaling', f"HighestAverages({case['divisor']}, first_coef={case['first_coef']}) prev={case['prev']} "
+                        f"max={case['max']} k={case['k']}: {json.dumps(b)} vs {json.dumps(sc)}"))
     elif case['op'] == 'scale_qd':
         b, sc = canon(obs['base']), canon(obs['scaled'])
         if b != sc:
@@ -482,13 +535,16 @@ def signature(case, clause):
 
 
 def nontrivial(case, obs):
-    if case['op'] in ('scale', 'scale_qd'):
+    if case['op'] in ('scale', 'scale_qd', 'scale_ha'):
         return not (isinstance(obs['base'], dict) and 'err' in obs['base'])
     return True
 
 
 def model_line(case):
     """the Lean models of the proved families evaluate the SCALED profile; compared with the implementation's scaled run"""
+    if case['op'] == 'scale_ha':
+        return {'op': 'ha', 'divisor': case['divisor'], 'first_coef': case['first_coef'], 'votes': fam_mod.scale(case['prof'], Fraction(case['k'])),
+                'n': case['n'], 'prev': case['prev'], 'max': case['max']}
     if case['op'] == 'scale_qd':
         return {'op': case['kind'], 'quota': case['quota'], 'accept_equal': case['accept_equal'], 'on_overaward': case['on_overaward'],
                 'n': case['n'], 'votes': fam_mod.scale(case['prof'], Fraction(case['k'])), 'prev': case['prev'], 'max': case['max']}
@@ -573,7 +629,7 @@ def model_line(case):
 
 
 def compare(case, iobs, mobs):
-    got = iobs['scaled'] if case['op'] in ('scale', 'scale_qd') else iobs
+    got = iobs['scaled'] if case['op'] in ('scale', 'scale_qd', 'scale_ha') else iobs
     if case['op'] == 'scale' and case['family'] in ('bucklin', 'oklahoma', 'bucklin_whole', 'oklahoma_whole', 'baldwin') and \
             any(isinstance(it, list) for b, _ in case['prof'] for it in b):
         # shared ranks: the model iterates them in protocol order, Python in frozenset order - the order among equally placed
@@ -609,7 +665,7 @@ def compare(case, iobs, mobs):
         if a != b:
             return f'impl={json.dumps(a)} model={json.dumps(b)} (runs of equal value sorted)'
         return None
-    if case['op'] == 'scale_qd' or (case['op'] == 'scale' and case['family'].startswith(DIST_FAMILIES)):
+    if case['op'] in ('scale_qd', 'scale_ha') or (case['op'] == 'scale' and case['family'].startswith(DIST_FAMILIES)):
         a, b = canon(got), canon_dist(mobs)
     else:
         a, b = canon(got), canon(mobs)
@@ -632,6 +688,10 @@ def generate(rng, tier):    # noqa
 def describe(case):
     if case['op'] == 'scale':
         return f"{case['family']}: evaluate(profile, {case['n']}) vs evaluate(profile x {case['k']}, {case['n']}); profile={case['prof']}"
+    if case['op'] == 'scale_ha':
+        return (f"HighestAverages({case['divisor']!r}, first_coef={case['first_coef']}).evaluate(profile, {case['n']}, prev_gains="
+                f"{dict(map(tuple, case['prev']))}, max_seats={dict(map(tuple, case['max']))}) vs the same on profile x {case['k']}; "
+                f"profile={case['prof']}")
     if case['op'] == 'scale_qd':
         cls = 'LargestRemainder' if case['kind'] == 'lr' else 'QuotaDistributor'
         return (f"{cls}({case['quota']!r}, accept_equal={case['accept_equal']}, on_overaward={case['on_overaward']!r}).evaluate(profile, "
@@ -641,7 +701,7 @@ def describe(case):
 
 
 def shrink_candidates(case):
-    if case['op'] == 'scale_qd':
+    if case['op'] in ('scale_qd', 'scale_ha'):
         for key in ('max', 'prev'):
             for i in range(len(case[key])):
                 c = dict(case)
